@@ -183,6 +183,8 @@ def checkRecord (d : DS) (s : St) (o : Obs) (what : String) : St × Scheme × Op
   let s := s.cmp s!"{what}.enc" (hex r.encode) o.enc
   let s := s.cmp s!"{what}.size" (toString r.size) o.size
   let s := if r.size ≤ 300 then s.chk else s.prop "C09" "size_le_300" s!"size={r.size}"
+  let s := if o.enc == "panic" || o.size == toString (o.enc.length / 2) then s.chk
+    else s.prop "C09" "size_is_encoding_length" s!"size()={o.size} encoding={o.enc.length / 2}"
   match S.enrToPublic r.content with
   | .error _ => (s.prop "C05" "has_public_key" s!"pairs={showPairs r.content}", S, none)
   | .ok pk =>
@@ -463,7 +465,7 @@ def handlePrefix (s : St) (t : Toks) (o : Toks) (rec : Option Obs) : St :=
   let il := (tget t "itemlen").toNat?.getD (bufh.length / 2)
   let item := (bufh.take (2 * il)).toString
   let key := s!"{tget t "scheme"}/{item}"
-  let sig := resClass (tget o "res") ++ "/" ++ (match rec with
+  let sig := tget o "res" ++ "/" ++ (match rec with
     | some ob => s!"{ob.seq}/{hex ob.nid}/{hex ob.sig}/{showPairs ob.pairs}"
     | none => "-")
   if 2 * il == bufh.length || bufh == "-" then
@@ -471,7 +473,7 @@ def handlePrefix (s : St) (t : Toks) (o : Toks) (rec : Option Obs) : St :=
   else
     match s.itemRes.find? (·.1 == key) with
     | some (_, sg) =>
-      if sg == sig then s.chk else s.prop "C13" "same_outcome_with_suffix" s!"item={item} alone={sg.take 12} with_suffix={sig.take 12}"
+      if sg == sig then s.chk else s.prop "C13" "same_outcome_with_suffix" s!"item={item} alone={sg.take 40} with_suffix={sig.take 40}"
     | none => s
 
 /-- results of one buffer under the different key types (C11) -/
@@ -523,6 +525,9 @@ def handleTxt (d : DS) (s : St) (t : Toks) (o : Toks) (rec : Option Obs) (json :
   let tag := tget t "tag"
   let expect := tget t "expect"
   let s := if res == "panic" then s.prop "C03" "parse_no_panic" s!"s={hex str}" else s
+  let s := if res.startsWith "mixed" then
+      s.prop "C12" "json_parsing_independent_of_how_the_string_is_handed_over" s!"routes(str,value,reader,escaped)={res} s={hex str}"
+    else s
   let S' := match rec with
     | some ob =>
       match S.enrToPublic ob.pairs with
@@ -728,6 +733,27 @@ def handleStep (d : DS) (s : St) (t : Toks) (o : Toks) (after : Obs) : St :=
       -- C09: refusal for size exactly when the model's rule says so
       let s := if resKind res == "ExceedsMaxSize" || resKind mres == "ExceedsMaxSize" then
           (if resKind res == resKind mres then s.chk else s.prop "C09" "refusal_matches_size_rule" s!"op={opn} model={mres} impl={res}")
+        else s
+      -- C14: what a typed setter stored reads back as the value set
+      let s := if resClass res == "ok" then
+          (let a := after.toRec
+           let n (k : String) : Nat := (tget t k).toNat?.getD 0
+           let ipb := unhex (tget t "ip")
+           let good : Bool := match opn with
+             | "set_tcp4" => a.tcp4 == some (n "port")
+             | "set_tcp6" => a.tcp6 == some (n "port")
+             | "set_udp4" => a.udp4 == some (n "port")
+             | "set_udp6" => a.udp6 == some (n "port")
+             | "set_ip" => if ipb.length == 4 then a.ip4 == some ipb else a.ip6 == some ipb
+             | "set_udp_socket" =>
+               if ipb.length == 4 then a.udp4Socket == some (ipb, n "port") else a.udp6Socket == some (ipb, n "port")
+             | "set_tcp_socket" =>
+               if ipb.length == 4 then a.tcp4Socket == some (ipb, n "port") else a.tcp6Socket == some (ipb, n "port")
+             | "set_client_info" =>
+               a.clientInfo == some (unhex (tget t "name"), unhex (tget t "ver"),
+                 if tget t "build" == "none" then none else some (unhex (tget t "build")))
+             | _ => true
+           if good then s.chk else s.prop "C14" "setter_reads_back" s!"op={opn} pairs={showPairs after.pairs}")
         else s
       -- C05 re-key: afterwards the public key is the signer's
       let s := if resClass res == "ok" then
